@@ -233,11 +233,23 @@ func c17Judge(filter, in, out, param string) (verdict string, judged bool) {
 }
 
 type c17Runner struct {
-	tpls map[string]*pongo2.Template
+	tpls  map[string]*pongo2.Template
+	tpls2 map[string]*pongo2.Template // the same filter inside with / for / macro regions of an autoescape-off region
 }
 
+const c17Sep = "\u27e6SEP\u27e7"
+
+// c17Markup is a string-kinded type whose printed form differs from its underlying text
+type c17Markup string
+
+func (m c17Markup) String() string { return "<" + string(m) + ">&'" }
+
+type c17PtrMarkup struct{ s string }
+
+func (m *c17PtrMarkup) String() string { return m.s + "\"<p>" }
+
 func newC17Runner() (*c17Runner, error) {
-	r := &c17Runner{tpls: map[string]*pongo2.Template{}}
+	r := &c17Runner{tpls: map[string]*pongo2.Template{}, tpls2: map[string]*pongo2.Template{}}
 	set, _ := newSet(emptySetFiles)
 	for _, f := range c17Filters {
 		src := "{% autoescape off %}{{ v|" + f + " }}{% endautoescape %}"
@@ -249,6 +261,17 @@ func newC17Runner() (*c17Runner, error) {
 			return nil, fmt.Errorf("%s: %v", src, err)
 		}
 		r.tpls[f] = t
+		fp := f
+		if f == "removetags" {
+			fp = "removetags:p"
+		}
+		src2 := "{% autoescape off %}{% with q=1 %}{{ v|" + fp + " }}{% endwith %}" + c17Sep + "{% for i in one %}{{ v|" + fp + " }}{% endfor %}" + c17Sep +
+			"{% macro m(a, p) %}{{ a|" + fp + " }}{% endmacro %}{{ m(v, p) }}" + c17Sep + "{% filter " + fp + " %}{{ v }}{% endfilter %}{% endautoescape %}"
+		t2, err := set.FromString(src2)
+		if err != nil {
+			return nil, fmt.Errorf("%s: %v", src2, err)
+		}
+		r.tpls2[f] = t2
 	}
 	return r, nil
 }
@@ -294,6 +317,37 @@ func (r *c17Runner) checkP(c *C, filter, in, pstr string) bool {
 	if xerr != nil || tout != out {
 		c.Fail("routes-disagree", D{"filter": filter, "input": q(in), "ApplyFilter": q(out), "template": q(tout), "template_err": errStr(xerr)})
 		return false
+	}
+	if c.R.Chance(12) {
+		// the filter inside regions that run in child contexts of an autoescape-off region, and as a filter tag
+		t2, xerr2 := r.tpls2[filter].Execute(pongo2.Context{"v": in, "p": pstr, "one": []int{1}})
+		c.Eval(1)
+		if want := out + c17Sep + out + c17Sep + out + c17Sep + out; xerr2 != nil || t2 != want {
+			c.Fail("routes-disagree", D{"filter": filter, "input": q(in), "ApplyFilter": q(out), "with|for|macro|filter-tag under autoescape off": q(t2), "template_err": errStr(xerr2)})
+			return false
+		}
+		// values that are not strings but print as text (a string-kinded Stringer, a pointer-receiver Stringer):
+		// the filter works on the printed form
+		for _, sv := range []any{c17Markup(in), &c17PtrMarkup{in}} {
+			printed := sv.(fmt.Stringer).String()
+			a, e1 := pongo2.ApplyFilter(filter, pongo2.AsValue(sv), param)
+			b, e2 := pongo2.ApplyFilter(filter, pongo2.AsValue(printed), param)
+			c.Eval(2)
+			if e1 != nil || e2 != nil {
+				c.Fail("filter-error", D{"filter": filter, "input": fmt.Sprintf("%T with String() = %s", sv, q(printed)), "error": fmt.Sprint(e1, e2)})
+				return false
+			}
+			if a.String() != b.String() {
+				c.Fail("promise-broken", D{"filter": filter, "input": fmt.Sprintf("%T with String() = %s", sv, q(printed)), "output": q(a.String()), "output_for_the_printed_form_as_plain_string": q(b.String()), "why": "a value that prints as text is filtered by its printed form"})
+				return false
+			}
+			tv, xe := r.tpls[filter].Execute(pongo2.Context{"v": sv, "p": pstr})
+			if xe != nil || tv != b.String() {
+				c.Fail("routes-disagree", D{"filter": filter, "input": fmt.Sprintf("%T with String() = %s", sv, q(printed)), "ApplyFilter_on_printed_form": q(b.String()), "template": q(tv), "template_err": errStr(xe)})
+				return false
+			}
+		}
+		c.Cover("child_context_routes_and_stringers")
 	}
 	if filter == "safe" {
 		// safe must also leave non-strings alone
